@@ -32,7 +32,7 @@ Proof. vm_compute. reflexivity. Qed.
 
 Example ex3_nonvacuous :
   tree_ok ex3 /\ ns_closed ex3 /\ theight ex3 = 3 /\ load (serialize ex3) = Ok ex3.
-Proof. repeat split; [exact ex3_ok | exact ex3_closed | exact ex3_roundtrip]. Qed.
+Proof. split; [exact ex3_ok | split; [exact ex3_closed | split; [reflexivity | exact ex3_roundtrip]]]. Qed.
 
 (** outside the precondition: the child lacks the parent's prefix and a grandchild binds it
     to something else — loading re-attaches the child, the merge declares the prefix on the
